@@ -129,8 +129,14 @@ TStop ==      \* TestResult.stopTest (unittest calls it in a finally clause)
   /\ LET hookRaises == ending = "hookDown" /\ Last /\ exc = "none"
          g1 == IF "HooksDownBeforeRestore" \in Deviations /\ hookRaises
                THEN g ELSE RestoreStreams(g)
-     IN /\ g' = g1
+         g2 == IF Last /\ ending = "postmortem" /\ "PostMortemResetsTrace" \in Deviations
+                  /\ "coverage" \notin Opts
+               THEN Set(g1, {"sysTrace"}, "none") ELSE g1
+     IN /\ g' = g2
         /\ exc' = IF hookRaises THEN "hook" ELSE exc
+        \* -D: debug.post_mortem enters pdb, whose 'continue' resets the trace
+        \* function; post_mortem puts the caller's back (fix; deviation
+        \* "PostMortemResetsTrace" = before it)
         /\ IF hookRaises \/ exc # "none"
               \/ (Last /\ ending \in {"stop", "postmortem"})    \* -x / EndRun: loop left normally
            THEN pc' = "eteardown" /\ idx' = NF /\ UNCHANGED t
